@@ -32,6 +32,11 @@ structure Resp where
   merkle  : Bool
   wit     : Bool
   size    : Nat
+  /-- id of the stored header that has the same parent (`PrevBlock`) and the same
+  `MerkleRoot` as this response's header, 0 if none.  `sib = hdr` for the stored
+  headers themselves; `sib ≠ hdr`, `sib ≠ 0` is a re-mined sibling of a stored
+  header.  The handler must not look at it: identity is the header HASH. -/
+  sib     : Nat := 0
 deriving DecidableEq, Repr, Inhabited
 
 inductive Decision where
